@@ -327,7 +327,7 @@ pub fn gen_case(g: &mut G, ex: &Excl) -> Case {
             0 => Item::CallArg(gen_lit(g, 10, ex)),
             1 if g.chance(1, 2) => Item::TwoCalls(gen_lit(g, 6, ex), gen_lit(g, 6, ex), g.chance(1, 2)),
             1 if g.chance(1, 2) => Item::LocalInitCalls(gen_lit(g, 5, ex), gen_lit(g, 5, ex), g.below(3) as u8),
-            1 => Item::ThreeCalls(gen_lit(g, 5, ex), gen_lit(g, 5, ex), gen_lit(g, 5, ex), g.below(3) as u8),
+            1 => Item::ThreeCalls(gen_lit(g, 5, ex), gen_lit(g, 5, ex), gen_lit(g, 5, ex), g.below(5) as u8),
             2 => Item::Assign(gen_lit(g, 10, ex)),
             3 if g.chance(1, 2) => Item::LocalPtrInit(gen_lit(g, 10, ex)),
             3 => Item::Assign(gen_lit(g, 10, ex)),
@@ -373,7 +373,10 @@ fn item_text(it: &Item) -> String {
         Item::ThreeCalls(a, b, c, shape) => match shape {
             0 => format!("cr = gc(\"{}\", gc(\"{}\", fc(\"{}\")));", spell(a), spell(b), spell(c)),
             1 => format!("cr = fc(\"{}\") + gc(\"{}\", fc(\"{}\"));", spell(a), spell(b), spell(c)),
-            _ => format!("cr = gc(\"{}\", fc(\"{}\")) + fc(\"{}\");", spell(a), spell(b), spell(c)),
+            2 => format!("cr = gc(\"{}\", fc(\"{}\")) + fc(\"{}\");", spell(a), spell(b), spell(c)),
+            // three literal-bearing groups side by side, and a literal on each side of a call in one argument list
+            3 => format!("cr = fc(\"{}\") + fc(\"{}\") + fc(\"{}\");", spell(a), spell(b), spell(c)),
+            _ => format!("cr = g3(\"{}\", fc(\"{}\"), \"{}\");", spell(a), spell(b), spell(c)),
         },
         Item::TwoCalls(a, b, nested) => {
             if *nested {
@@ -410,7 +413,7 @@ pub fn source(c: &Case) -> String {
     }
     s.push_str("char *pp;\nvoid ff(char *q) { }\n");
     if c.stmts.iter().any(|i| matches!(i, Item::TwoCalls(..) | Item::ThreeCalls(..) | Item::LocalInitCalls(..))) {
-        s.push_str("char cr;\nchar fc(char *q) { return 1; }\nchar gc(char *q, char c) { return c; }\n");
+        s.push_str("char cr;\nchar fc(char *q) { return 1; }\nchar gc(char *q, char c) { return c; }\nchar g3(char *q, char c, char *r) { return c; }\n");
     }
     let has_header = !c.header.is_empty() || !c.header_macros.is_empty();
     for (i, l) in c.lines.iter().enumerate() {
